@@ -8,11 +8,11 @@ from ..absint import State, Int, Atom, Adt, Tup, Ref, Slice, Str, FnItem, Fork, 
 from .. import load, l1, l2, mir, tables
 from ..prims import ok, err, some, NONE, RESULT, OPTION, norm_adt
 
-SER = "<&'a mut minicbor_serde::ser::Serializer<W> as serde::Serializer>::"
-DE = "<&'a mut minicbor_serde::de::Deserializer<'de> as serde::Deserializer<'de>>::"
-SEQSER = "<minicbor_serde::ser::SeqSerializer<'a, W> as serde::ser::%s>::%s"
-SEQ = "<minicbor_serde::de::Seq<'a, 'de> as serde::de::%s<'de>>::%s"
-ENUM = "<minicbor_serde::de::Enum<'a, 'de> as serde::de::%s<'de>>::%s"
+SER = "<&'_ mut minicbor_serde::ser::Serializer<W> as serde::Serializer>::"
+DE = "<&'_ mut minicbor_serde::de::Deserializer<'_> as serde::Deserializer<'_>>::"
+SEQSER = "<minicbor_serde::ser::SeqSerializer<'_, W> as serde::ser::%s>::%s"
+SEQ = "<minicbor_serde::de::Seq<'_, '_> as serde::de::%s<'_>>::%s"
+ENUM = "<minicbor_serde::de::Enum<'_, '_> as serde::de::%s<'_>>::%s"
 SEQ_ADT = 'minicbor_serde::de::Seq'
 ENUM_ADT = 'minicbor_serde::de::Enum'
 SEQ_LEN_FIELD = 1
@@ -25,7 +25,7 @@ def access_roles(prog):
     import re
     for inst in prog.insts.values():
         p = inst['path']
-        m_ = re.match(r"^<(minicbor_serde::[^ ]+?(?:<.*?>)?) as serde::de::(SeqAccess|EnumAccess)<'de>>::(next_element_seed|variant_seed)$", p)
+        m_ = re.match(r"^<(minicbor_serde::[^ ]+?(?:<.*?>)?) as serde::de::(SeqAccess|EnumAccess)<'_>>::(next_element_seed|variant_seed)$", p)
         if not m_:
             continue
         ty, tr = m_.group(1), m_.group(2)
@@ -36,13 +36,13 @@ def access_roles(prog):
             tys = prog.adts[adt]['variants'][0].get('tys') or []
             lens = [i for i, t_ in enumerate(tys) if t_.replace('core::', 'std::') == 'std::option::Option<u64>']
             if len(lens) == 1 and len(tys) == 2:
-                SEQ = "<%s as serde::de::%%s<'de>>::%%s" % ty
+                SEQ = "<%s as serde::de::%%s<'_>>::%%s" % ty
                 SEQ_ADT = adt
                 SEQ_LEN_FIELD = lens[0]
         else:
-            ENUM = "<%s as serde::de::%%s<'de>>::%%s" % ty
+            ENUM = "<%s as serde::de::%%s<'_>>::%%s" % ty
             ENUM_ADT = adt
-DESER = "minicbor_serde::de::Deserializer::<'de>::"
+DESER = "minicbor_serde::de::Deserializer::<'_>::"
 
 VISITS = ['bool', 'i8', 'i16', 'i32', 'i64', 'i128', 'u8', 'u16', 'u32', 'u64', 'u128', 'f32', 'f64', 'char', 'str', 'borrowed_str', 'string',
           'bytes', 'borrowed_bytes', 'byte_buf', 'none', 'some', 'unit', 'newtype_struct', 'seq', 'map', 'enum']
@@ -700,7 +700,7 @@ def t_de(ctx, prog, half, alloc, label=''):
 # T-ACCESS: one-step transfer functions of Seq (SeqAccess / MapAccess) and Enum
 
 def seq_value(m, st, lenv):
-    de = m.make_value(st, ty_from_str("&mut minicbor_serde::de::Deserializer<'de>"), 'de')
+    de = m.make_value(st, ty_from_str("&mut minicbor_serde::de::Deserializer<'_>"), 'de')
     return de, Adt(SEQ_ADT, 0, [de, lenv] if SEQ_LEN_FIELD == 1 else [lenv, de])
 
 
@@ -822,7 +822,7 @@ def t_access(ctx, prog):
         st.extra['stream'] = tuple(stream)
         st.extra['cur'] = 0
         m = l2.L2Machine(prog, ov)
-        de = m.make_value(st, ty_from_str("&mut minicbor_serde::de::Deserializer<'de>"), 'de')
+        de = m.make_value(st, ty_from_str("&mut minicbor_serde::de::Deserializer<'_>"), 'de')
         en = Adt(ENUM_ADT, 0, [de])
         key = '%s|%s' % (meth, fmt([s[1:] for s in stream]))
         try:
@@ -926,7 +926,7 @@ class Sim:
         self.dst.extra['stream'] = tuple(stream)
         self.dst.extra['cur'] = 0
         self.dm = l2.L2Machine(self.prog, de_overrides())
-        self.de = self.dm.make_value(self.dst, ty_from_str("&mut minicbor_serde::de::Deserializer<'de>"), 'de')
+        self.de = self.dm.make_value(self.dst, ty_from_str("&mut minicbor_serde::de::Deserializer<'_>"), 'de')
 
     def dcall(self, path, args, seedq=(), expect='Ok'):
         inst = self.prog.one(path)
